@@ -7,8 +7,8 @@ CONSTANTS MaxLines,   \* 1 or 2
           FirstAll,   \* BOOLEAN: with two lines, the first line ranges over all lines (FALSE: over a small set)
           SecondAll   \* BOOLEAN: likewise for the second line
 
-Names == {"A", "B", "U", "K1"}
-Lookup == [A |-> "la", B |-> "lb"]                     \* the lookup function (e.g. the OS environment)
+Names == {"A", "B", "U", "K1", "E"}
+Lookup == [A |-> "la", B |-> "lb", E |-> ""]           \* the lookup function (e.g. the OS environment); E is set to the empty string
 
 Seqs(S, L) == UNION {[1..k -> S] : k \in 0..L}
 TItems == {[k |-> "lit", c |-> "a"], [k |-> "lit", c |-> "b c"], [k |-> "lit", c |-> "a#b"], [k |-> "lit", c |-> "="], [k |-> "esc"],
@@ -16,7 +16,9 @@ TItems == {[k |-> "lit", c |-> "a"], [k |-> "lit", c |-> "b c"], [k |-> "lit", c
            [k |-> "var", n |-> "U", b |-> TRUE],
            [k |-> "op", n |-> "U", op |-> ":-", t |-> <<[k |-> "lit", c |-> "d"]>>],
            [k |-> "op", n |-> "K1", op |-> "-", t |-> <<[k |-> "var", n |-> "A", b |-> TRUE]>>],
-           [k |-> "op", n |-> "U", op |-> "?", t |-> <<[k |-> "lit", c |-> "m"]>>]}
+           [k |-> "op", n |-> "U", op |-> "?", t |-> <<[k |-> "lit", c |-> "m"]>>],
+           [k |-> "var", n |-> "E", b |-> TRUE], [k |-> "op", n |-> "E", op |-> "-", t |-> <<[k |-> "lit", c |-> "d"]>>],
+           [k |-> "op", n |-> "E", op |-> "?", t |-> <<[k |-> "lit", c |-> "m"]>>]}
 Special(ks) == {[k |-> x] : x \in ks}
 AtomsNone   == TItems \cup Special({"q1", "q2", "bs", "hash", "tsp"})
 AtomsSingle == TItems \cup Special({"q2", "bs", "nlraw", "hash", "tsp"})
